@@ -30,6 +30,12 @@ inductive Call
   | newSearch
   /-- every other public call -/
   | other
+  /-- a grammar-setting call that was REFUSED (returned −1): `decoder_set_fsg` (decoder.c l.609-620) calls
+  `fsg_search_init` first and returns −1 when it fails (a word of the grammar is not in the dictionary) BEFORE it
+  touches `d->search`; `decoder_set_jsgf_file/_string` return −1 before reaching it when the JSGF does not parse, has no
+  public rule or cannot be compiled; `decoder_set_align_text` returns −1 on an unknown word.  The old search object —
+  its frame count, hypothesis and cached lattice — stays in place -/
+  | refused
 deriving DecidableEq, Repr
 
 /-- decoder state reduced to what the cache clause reads -/
@@ -49,6 +55,7 @@ def Sess.step (s : Sess) : Call → Sess × Option (Option Nat)
   | .startUtt => ({ cache := s.cache.startUtt, frame := 0 }, none)
   | .newSearch => ({ cache := s.cache.startUtt, frame := 0 }, none)
   | .other => (s, none)
+  | .refused => (s, none)
 
 /-- state after a list of calls -/
 def Sess.after (s : Sess) : List Call → Sess
@@ -72,6 +79,7 @@ def Call.quiet : Call → Bool
   | .startUtt => false
   | .newSearch => false
   | .other => true
+  | .refused => true
 
 /-- the public calls that neither feed audio nor start an utterance nor replace the search: the cache clause
 quantifies over all of them.  (`decoder_free_not_last`: `decoder_free` of a reference that is not the last.) -/
@@ -88,6 +96,13 @@ def newSearchApi : List String :=
   ["decoder_set_fsg", "decoder_set_jsgf_file", "decoder_set_jsgf_string", "decoder_set_align_text",
    "decoder_reinit", "decoder_reinit_feat"]
 
+/-- the grammar-setting calls when they return an error (the harness appends `_refused` to the name of a call that
+returned −1; an accepted one keeps its name and is a `newSearch`).  `decoder_reinit*` are not listed: a failed
+re-initialisation does not promise to keep anything. -/
+def refusedApi : List String :=
+  ["decoder_set_fsg_refused", "decoder_set_jsgf_file_refused", "decoder_set_jsgf_string_refused",
+   "decoder_set_align_text_refused"]
+
 /-- kind of a public call by its name; `arg`: frames searched (audio), returned non-`NULL` (lattice) -/
 def Call.ofApi (name : String) (arg : Nat) : Option Call :=
   if name = "decoder_lattice" then some (.lattice (arg != 0))
@@ -95,6 +110,7 @@ def Call.ofApi (name : String) (arg : Nat) : Option Call :=
   else if name = "decoder_start_utt" then some .startUtt
   else if newSearchApi.contains name then some .newSearch
   else if otherApi.contains name then some .other
+  else if refusedApi.contains name then some .refused
   else none
 
 /-- for every lattice request of a call list: were all calls since the previous request quiet?
